@@ -102,6 +102,19 @@ def suicide_cases():
     ]
 
 
+def noflow_cases():
+    """outputs completed in no flow (`--flow=none`) on a task that is not in the pool do not count as complete in a real
+    flow: the same command in flow 1 (explicit / default) completes them there and spawns the children"""
+    from _s3set import S, L, run_ok, case
+    return [
+        case('s3n-none-then-1', 'a => b => c', [S('1/b', out=['succeeded'], flow=['none']), L,
+                                                 S('1/b', out=['succeeded'], flow=['1']), L, L, L]),
+        case('s3n-none-then-default', 'a => b => c; b:start => d', [L, S('1/b', out=['started'], flow=['none']), L,
+                                                                     S('1/b', out=['started']), L, S('1/b'), L, L]),
+        case('s3n-none-then-new', 'a => b => c', [S('1/b', flow=['none']), L, S('1/b', flow=['new']), L, L]),
+    ]
+
+
 class C29(SchedProp):
     id = 'C29'
     props_modules = ['CylcModel.Props.C29']
@@ -211,12 +224,12 @@ class C29(SchedProp):
             '--pre=all) on one pooled or not-yet-spawned instance in any state, '
             'with --flow default / new / none / numbers and --wait, plus hold, release, hold point, pause, stop + restart '
             '(kind set: jobs complete their required outputs; kind setany: failures, submit failures, missing outputs, '
-            'duplicate / stale / out-of-order messages); 35 hand-written histories (no-flow tasks, flow wait, re-run in a new '
+            'duplicate / stale / out-of-order messages; option nf2: 30% of the --out commands are a --flow=none set of an instance that is not in the pool, repeated with p = 0.7 by the next --out command on the same instance in a real flow); 38 hand-written histories (3 of a no-flow set followed by the same set in a real flow; no-flow tasks, flow wait, re-run in a new '
             'flow, transient parents, joins; 5 of `cylc set --pre` on a task with a suicide trigger; 13 of a task waiting behind an execution / submission retry xtrigger and '
             '`cylc set --pre=xtrigger/<label>`, xtrigger/all, all, labels not carried, both xtriggers, restart); non-trivial = distinct class (kind, ending, which set variants occurred on '
             'pooled / inactive targets, merges, flow-wait, restart with several flows) per distinct case')
     kinds = ('set', 'setany')
-    gen_opts = {'xtrig': True, 'suic': True}
+    gen_opts = {'xtrig': True, 'suic': True, 'nf2': True}
     n_quick = 48
     n_thorough = 720
 
@@ -224,7 +237,7 @@ class C29(SchedProp):
         return _s3set.translate_flags()
 
     def corpus(self):
-        return _s3set.corpus_cases() + xtrig_cases() + suicide_cases()
+        return _s3set.corpus_cases() + xtrig_cases() + suicide_cases() + noflow_cases()
 
     def impl_batch(self, inputs):
         return _s3set.retry_flakes(sprop.run_workers, inputs, _s3set.run_robust(sprop.run_workers, inputs, self.workers))
